@@ -236,6 +236,43 @@ func c04Record(tier string, seed int64, emit func(interface{}), prop string) {
 		emit(map[string]interface{}{"k": "sep", "a": a, "b": b, "type": typ, "circ": circ, "ds": ds,
 			"ha": hash(a, typ, circ, ds), "hb": hash(b, typ, circ, ds)})
 	}
+	// published form on long circular molecules: the canonical representative is found by brute force here and
+	// verified by TLC (C04_Trace!JudgeForm); the digest is computed by blake3ref
+	nForm := 6
+	if tier == "thorough" {
+		nForm = 40
+	}
+	for i := 0; i < nForm; i++ {
+		n := 300 + rng.Intn(6000)
+		if i%2 == 0 {
+			n = 4096 + rng.Intn(3000)
+		}
+		a := rnd(n, "ACGT")
+		ds := rng.Intn(3) > 0
+		least := func(x string) (string, int) {
+			d := x + x
+			best := 0
+			for k := 1; k < len(x); k++ {
+				if d[k:k+len(x)] < d[best:best+len(x)] {
+					best = k
+				}
+			}
+			return d[best : best+len(x)], best
+		}
+		cf, fi := least(a)
+		cr, ri := least(rcIUPAC(a))
+		canon, idx, strand, other, oidx := cf, fi, "fwd", cr, ri
+		if ds && cr < cf {
+			canon, idx, strand, other, oidx = cr, ri, "rc", cf, fi
+		}
+		h := hash(a, "DNA", true, ds)
+		tag := "DCS"
+		if ds {
+			tag = "DCD"
+		}
+		emit(map[string]interface{}{"k": "form", "a": a, "type": "DNA", "circ": true, "ds": ds, "canon": canon, "idx": idx, "strand": strand,
+			"other": other, "oidx": oidx, "h": h, "digestok": h == specHash(tag, canon)})
+	}
 	// rejection clause on longer inputs: one bad letter somewhere, unknown types, double-stranded proteins
 	for i := 0; i < nSep; i++ {
 		typ := []string{"DNA", "RNA", "PROTEIN", "PROTEIN", "dna", "Rna", "protein", ""}[rng.Intn(8)]
